@@ -5,6 +5,7 @@ import (
 	"fmt"
 	"math"
 	"reflect"
+	"runtime/debug"
 	"testing"
 	"time"
 	"unsafe"
@@ -158,6 +159,10 @@ var c06Targets = []string{"Simple", "Nested", "MapShapes", "Registered", "Omit",
 // value is fine; the verdict is about panics, death, time and memory, which
 // the parent observes.
 func runC06InWorker(c c06Case) error {
+	// collect early and often while the input is evaluated: the footprint measured
+	// by the parent is then what the input needs at a time, not how far the
+	// collector happened to lag behind short-lived garbage
+	defer debug.SetGCPercent(debug.SetGCPercent(10))
 	if c.Big != nil && c.Big.Items > 0 {
 		data, err := buildItemsFile(*c.Big)
 		if err != nil {
